@@ -308,51 +308,6 @@ theorem tail_settled {cfgs : Cfgs} {ns : State} {stk : List SFrame} (hS : Shape 
 
 /-! ### the source-level reference with a call stack -/
 
-/-- structured state of a followed flow with calls: context, the uid counter (frames are named by it), the stack of
-    waiting frames (innermost first, `[]` = idle), and what is decided after the last event -/
-structure SK where
-  ctx : Ctx
-  ctr : Nat
-  stk : List SFrame
-  dec : List Decision
-  deriving Repr
-
-def whoDec : Option (Nat × String × Step) → List Decision
-  | some w => stepDec w.2.2
-  | none => []
-
-def outcomeK : OutU → Option SK
-  | .done st ctr stk who => some { ctx := st.ctx, ctr := ctr, stk := stk, dec := ctxDec st.upd ++ whoDec who }
-  | .stuck => none
-
-def followGeneralK (lib : Lib) (id : String) (p : Prog) (i0 : String) (f : Nat) (S : SK) (ev : Event) : Option SK :=
-  if ev == .botIntent "stop" then none else
-  match S.stk with
-  | [] =>
-    if isMatch (.userIntent i0) ev then
-      outcomeK (unwindS lib f ⟨S.ctx.withEvent ev, []⟩ (S.ctr + 1) [{ uid := S.ctr, name := id, body := p, addr := .here, callee := none }])
-    else some { S with ctx := S.ctx.withEvent ev, dec := [] }
-  | top :: rest =>
-    match stepAt top.body top.addr with
-    | some s =>
-      if ev.triggers [] then
-        (if isMatch (elemOf s) ev then outcomeK (unwindS lib f ⟨S.ctx.withEvent ev, []⟩ S.ctr (top :: rest)) else none)
-      else some { S with ctx := S.ctx.withEvent ev, dec := stepDec s }
-    | none => none
-
-def followStepK (lib : Lib) (id : String) (p : Prog) (i0 : String) (f : Nat) (S : SK) (ev : Event) : Option SK :=
-  match ev with
-  | .startAction => some S
-  | .contextUpdate d => some { S with ctx := S.ctx.update d, dec := [] }
-  | .hidePrevTurn => none
-  | ev => followGeneralK lib id p i0 f S ev
-
-def followAllK (lib : Lib) (id : String) (p : Prog) (i0 : String) (f : Nat) : SK → List Event → Option SK
-  | S, [] => some S
-  | S, ev :: rest => match followStepK lib id p i0 f S ev with
-    | some S' => followAllK lib id p i0 f S' rest
-    | none => none
-
 /-- invariant between the structured stack and the interpreter state -/
 def InvK (cfgs : Cfgs) (id : String) (S : SK) (st : State) : Prop :=
   st.ctx = S.ctx ∧ st.ctr = S.ctr ∧ decisionsOf st = S.dec ∧ Shape cfgs st S.stk ∧ ChainFrom none S.stk ∧
